@@ -220,6 +220,7 @@ def errflow(body, local, depth=0, none_variant=0):
        None/Err side reaches no Ok-exit; direct return as the function's own error."""
     res = []
     if depth > 6: return [('bad', 'adaptor chain too deep')]
+    if local == 0: return [('ok', 'returned')]
     oks = body.strict_ok_exits()
     uses = body.uses.get(local, ())
     if not uses: return [('bad', 'result unused (dropped)')]
@@ -518,7 +519,7 @@ def expr(body, operand, depth=18):
         c = None
         for x in body.calls:
             if x.bb == bi: c = x; break
-        node = ('call', c.item, c.name, [expr(body, a, depth - 1) for a in d['args']])
+        node = ('call', c.item, c.name, [expr(body, a, depth - 1) for a in d['args']], bi)
         return ('proj', node, fs) if fs else node
     rv = d['rv']; kk = rv['k']
     if kk == 'use':
@@ -538,7 +539,12 @@ def expr(body, operand, depth=18):
     else:
         inner = ('local', l)
     if fs:
+        # projection of a freshly built tuple selects the operand
+        while fs and inner[0] == 'agg' and inner[1] == 'tuple' and fs[0][0] == 'tuple' and fs[0][1].isdigit() and int(fs[0][1]) < len(inner[2]):
+            inner = inner[2][int(fs[0][1])]; fs = fs[1:]
+        if not fs: return inner
         if inner[0] == 'place': return ('place', inner[1], inner[2] + fs)
+        if inner[0] == 'proj': return ('proj', inner[1], inner[2] + fs)
         return ('proj', inner, fs)
     return inner
 
